@@ -285,6 +285,17 @@ def gen_swap_cases(rng, budget):
             out.append((s - 1, y2, 1, rng.choice(crs)))
     rng.shuffle(out)
     out = out[:budget]
+    # reserve products just above 2^256/10^18 (where the 18-digit ratio no longer fits 256 bits) with an offer comparable to the offer pool,
+    # and zero-commission swaps with a non-exact quotient: always included
+    lim = M256 // D
+    for _ in range(60):
+        x = rng.choice([10 ** 21, 10 ** 24, 2 ** 70, 3 * 10 ** 29])
+        y = lim // x * rng.choice([1, 1, 2, 7]) + rng.randrange(0, x)
+        if y <= M128:
+            out.append((x, y, x * rng.choice([1, 1, 2]) + rng.randrange(0, 1000), rng.choice(crs)))
+    for _ in range(60):
+        x = rng.randrange(10 ** 3, 10 ** 12); y = rng.randrange(10 ** 3, 10 ** 12)
+        out.append((x, y, rng.randrange(1, x), 0))
     return [dict(kind='compute_swap', x=str(x), y=str(y), a=str(a), cr=str(cr)) for (x, y, a, cr) in out if x > 0]
 
 
